@@ -19,6 +19,17 @@ Theorem C01_values :
 Proof. exact main_values. Qed.
 Print Assumptions C01_values.
 
+Theorem C01_vi_implementations_agree :
+  forall nS nA P Rw av ab ini g V1 Q1 Pi1 iv1 tl1 V2 Q2 Pi2 iv2 tl2 Vs,
+  @c01_check Q NumQ (mk_mdp nS nA P Rw av ab ini g) (mk_out V1 Q1 Pi1 iv1) tl1 = all_true ->
+  @c01_check Q NumQ (mk_mdp nS nA P Rw av ab ini g) (mk_out V2 Q2 Pi2 iv2) tl2 = all_true ->
+  Q2R g < 1 -> 0 <= Q2R (epsb tl1) -> 0 <= Q2R (epsb tl2) -> fixpoint (mR nS nA P Rw av ab ini g) Vs ->
+  forall s, (s < nS)%nat ->
+    Rabs (oV (oR V1 Q1 Pi1 iv1) s - oV (oR V2 Q2 Pi2 iv2) s)
+      <= (Q2R (epsb tl1) + Q2R (epsb tl2)) / (1 - Q2R g).
+Proof. exact main_vi_agree. Qed.
+Print Assumptions C01_vi_implementations_agree.
+
 Theorem C01_optimal_value_unique :
   forall (m : mdp R) V1 V2, wf m -> gamma m < 1 -> fixpoint m V1 -> fixpoint m V2 ->
   forall s, (s < nS m)%nat -> V1 s = V2 s.
